@@ -44,7 +44,10 @@ def _extra(ctx, spec):
     (b) mixes with it: every report must be the KF-C15-1 site (options.Factory in a generated ToMesg);
     (c) the witness of KF-C15-1 alone: if the detector reports the site, the finding is still there."""
     import framework as F
-    from . import _race
+    from . import _race, _crash
+    _crash.report_crashes(ctx)
+    if any(f['kind'] == 'tool' for f in ctx.failures):
+        return
     n = '300' if ctx.tier == 'thorough' else '40'
     tot = dict(ops=0, reports_without_shared_nil=0, reports_known_site=0, reports_other=0)
     for label, env in (('noz', dict(VERIF_CONC_NOZ='1', VERIF_CONC_N=n)), ('z', dict(VERIF_CONC_N=n))):
